@@ -1,7 +1,7 @@
 (* Model/Ledger.v — node/sync.go: transaction batches, holding, PEG requests, burns,
    rewards, snapshots, developer payouts, the one-time adjustments and SyncBlock.
    Definitions only; mirrors the Go control flow including its quirks. *)
-From Model Require Export Db.
+From Model Require Export Db Avg.
 From Gen Require Import Consts.
 Open Scope Z_scope.
 
@@ -203,29 +203,26 @@ Definition apply_held (cur : Z) (rates avgs : gmap ticker Z) (s : db) (e : entry
     end
   end.
 
-Definition apply_held_height (cur : Z) (rates avgs : gmap ticker Z) (hh : Z)
+Definition apply_held_height (cm : db) (cur : Z) (rates avgs : gmap ticker Z) (hh : Z)
            (acc : res (db * list (hash * list tx))) : res (db * list (hash * list tx)) :=
   let? st := acc in
   let '(s0, pegs0) := st in
-  (* the held batches of that height are read through the pool: the committed database;
-     within one block nothing is added to holding before this point, so it is [s0]'s *)
+  (* the held batches of that height are read through the pool: the committed database [cm] *)
   let? st1 := fold_left (fun r e =>
                  let? st := r in
                  let '(s, pegs) := st in
                  let? r1 := apply_held cur rates avgs s e hh in
                  let '(s', isp) := r1 in
                  Ok (s', if isp then pegs ++ [(e_hash e, default [] (e_batch e))] else pegs))
-              (holding_at s0 hh) (Ok (s0, pegs0)) in
+              (holding_at cm hh) (Ok (s0, pegs0)) in
   let '(s1, pegs1) := st1 in
   if (c_PegnetConversionLimitActivation c <=? cur) && (cur <? c_V4OPRUpdate c)
   then let? s2 := record_peg_requests cur s1 pegs1 rates avgs BankBaseAmount (cur - 1) in Ok (s2, [])
   else Ok (s1, pegs1).
 
-Fixpoint zrange (lo : Z) (n : nat) : list Z := match n with O => [] | S k => lo :: zrange (lo + 1) k end.
-
-Definition apply_holding (cur : Z) (s : db) (rates avgs : gmap ticker Z) : res db :=
+Definition apply_holding (cm : db) (cur : Z) (s : db) (rates avgs : gmap ticker Z) : res db :=
   let from := last_rated_below s cur in
-  let? st := fold_left (fun acc hh => apply_held_height cur rates avgs hh acc)
+  let? st := fold_left (fun acc hh => apply_held_height cm cur rates avgs hh acc)
                        (zrange from (Z.to_nat (cur - from))) (Ok (s, [])) in
   let '(s1, pegs) := st in
   if (c_V4OPRUpdate c <=? cur) && (cur <? c_V20HeightActivation c) then
